@@ -129,7 +129,12 @@ pub fn package(_thorough: bool) -> Report {
             let d2 = root.join("out/empty-map"); fs::create_dir_all(&d2).unwrap();
             if libcnb_package::package::package_composite_buildpack(&src, &d2, &empty).is_ok() { r.violation("package_missing_id", "an id without a known location is an error (EMPTY id->path map)", input.clone(), "Err".into(), format!("Ok, package.toml: {:?}", fs::read_to_string(d2.join("package.toml")).unwrap_or_default())); }
         }
-        if !complete { if res.is_ok() { r.violation("package_missing_id", "an id without a known location is an error", input, "Err".into(), "Ok".into()); } continue; }
+        if !complete {
+            if res.is_ok() { r.violation("package_missing_id", "an id without a known location is an error", input, "Err".into(), "Ok".into()); }
+            // ... and "never left in place": the failed call leaves no package.toml with the unresolved libcnb: reference in the destination
+            else if let Ok(left) = fs::read_to_string(dst.join("package.toml")) { if left.contains("libcnb:") { r.violation("package_missing_id", "when an id has no known location the call fails WITHOUT leaving a package.toml that still carries libcnb: references in the destination", input, "no package.toml (or none with libcnb: references)".into(), left.chars().take(300).collect()); } }
+            continue;
+        }
         if let Err(e) = res { r.violation("package", "packaging a well-formed composite buildpack failed", input, "Ok".into(), e.to_string()); continue; }
         let written: toml::Value = match fs::read_to_string(dst.join("package.toml")).ok().and_then(|s| toml::from_str(&s).ok()) { Some(v) => v, None => { r.violation("package", "the written package.toml is not valid TOML", input, "TOML".into(), "unreadable".into()); continue; } };
         let got: Vec<String> = written.get("dependencies").and_then(|d| d.as_array()).map(|a| a.iter().map(|x| x.get("uri").and_then(|u| u.as_str()).unwrap_or("<no uri>").to_string()).collect()).unwrap_or_default();
